@@ -1301,6 +1301,9 @@ func (g *Gen) Program(id string) *Prog {
 	if g.o.Structs && g.o.Containers && g.r.Intn(3) == 0 {
 		insert(g.addTypedStoresDemo())
 	}
+	if g.o.Structs && g.o.Lib && g.r.Intn(2) == 0 {
+		insert(g.addShowDemo())
+	}
 	g.prog.Funcs = append(g.prog.Funcs, &Func{Name: "Main", Body: body})
 	if g.o.Packages {
 		g.prog.Split = g.prog.chooseSplit(g.r)
